@@ -114,9 +114,10 @@ Inductive case :=
    of untrusted input.  via: 1 types.ValidatorSetFromProto, 2 types.ValidatorSetFromExistingValidators
    (light/provider/http), 3 types.EvidenceFromProto (the set inside LightClientAttackEvidence),
    4 types.BlockFromProto (that evidence inside a block: what addProposalBlockPart and block sync
-   decode).  ok_i: no error; panic_i: the decoder panicked; total_i: TotalVotingPower() of the
+   decode); sh (via 3, 4): the conflicting block's signed header: 0 absent, 1 present without
+   header, 2 present with an invalid header.  ok_i: no error; panic_i: the decoder panicked; total_i: TotalVotingPower() of the
    returned set (via 1, 2) *)
-| CValSet (via : N) (powers : list Z) (proposer : option Z) (ok_i panic_i : bool) (total_i : Z).
+| CValSet (via : N) (powers : list Z) (proposer : option Z) (sh : N) (ok_i panic_i : bool) (total_i : Z).
 
 (* ------------------------------------------------------------------ helpers *)
 
@@ -343,12 +344,13 @@ Definition check (c : case) : verdict :=
       (* on the marked message's channel exactly the messages accepted before it were delivered *)
       mism (crashed_i || negb reached_i || (marked <? 0) ||
             list_eqb bytes_eqb (on_chan mch del) (on_chan mch (firstn (Z.to_nat marked) acc))) 28 ]
-  | CValSet via powers proposer ok_i panic_i total_i =>
+  | CValSet via powers proposer sh ok_i panic_i total_i =>
     let mk := fun p => {| wv_power := p; wv_pubkey_ok := true; wv_addrlen := address_size |} in
     let vals := map mk powers in
     let res := match via with
                | 2%N => valset_from_existing vals
-               | _ => valset_from_proto {| ws_vals := vals; ws_proposer := option_map mk proposer |}
+               | 1%N => valset_from_proto {| ws_vals := vals; ws_proposer := option_map mk proposer |}
+               | _ => lcae_from_proto {| ws_vals := vals; ws_proposer := option_map mk proposer |} sh
                end in
     let exact := match via with 1%N | 2%N => true | _ => false end in
     first_of [
